@@ -568,7 +568,7 @@ class VcfReader:
         :param regions: a list of start, end tuples (end can be None)
         """
         records = []
-        for start, end in regions:
+        for start, end in sorted(regions, key=lambda region: region[0]):
             records.extend(list(self._fetch(chromosome, start=start, end=end)))
         return self._process_single_chromosome(chromosome, records)
 
